@@ -13,11 +13,11 @@ R13 = 'semantic values are ghost identifiers (R13): std::variant/optional/tuple,
 # obligations that belong to particular properties only (not counted, pass or fail, for the others)
 OWNED = {r'stack/capacity:': ['C06', 'C12'], r'stack/capacity-shape:': ['C06', 'C12', 'C07']}
 
-L_KNUTH = "Knuth's LR(1) theorem (closed states + goto kernels + table read off the items + driver executing the table => accepts exactly L(G)) is not mechanised; closure, transitions, analyze_states and the FIRST/nullable recursion are NOT under contract (solver cost / time), so a change confined to them is not seen by this check"
+L_KNUTH = "Knuth's LR(1) theorem (closed states + goto kernels + table read off the items + driver executing the table => accepts exactly L(G)) is not mechanised; analyze_states and the FIRST/nullable recursion (make_nterm_first/empty, make_right_side_slice_first/empty) are NOT under contract, so a change confined to them is not seen by this check; closure and transitions are under contract with add_situation / FIRST / nullable replaced by abstract contracts"
 GLUE = 'the pack-expansion glue that fills grammar_info from the DSL objects (analyze_terms/nterms/rule, create_lexer, init_reductors: R18) is outside the extraction'
 
 PROPS = {
-    'C01': dict(units=['state_analyzer', 'driver', 'stdex'],
+    'C01': dict(units=['state_analyzer', 'state_analyzer@small', 'driver', 'stdex'],
                 claim='local step contracts of the LR(1) construction that are within reach: item index encode/decode round trip, memo-key injectivity of the FIRST/nullable slice memos, rule sorting (ordered + permutation) and per-nonterminal slices (partition), add_situation (item set, item list, bucket by symbol after the dot, kernel), bitset primitives; and the driver executing the table entry of (top state, presented term)',
                 assumptions=[L_KNUTH, GLUE, L_PATH, TABLE_WF]),
     'C03': dict(units=['regex_decode', 'dfa'],
@@ -31,7 +31,7 @@ PROPS = {
                 claim='absence of undefined behaviour on the failure paths the property anchors (lexical error in get_current_term, non-matching regex::expr::match): the exact condition under which a constant evaluator must accept the evaluation; the parse path is one lowered text for all buffer kinds (R7)',
                 assumptions=["that g++'s and clang's constant evaluators and the compiled code compute the same function of a UB-free evaluation is the language standard (trusted)",
                              'buffer adaptors (cstring_buffer::iterator operators, the three get_view) are pinned as one-line pattern facts, not verified as functions', LEXER]),
-    'C11': dict(units=['diag', 'state_analyzer'],
+    'C11': dict(units=['diag', 'state_analyzer', 'state_analyzer@small'],
                 claim='write_state_diag_str prints for every term column exactly one action line of the kind the table entry has, with the rule number / target state of that entry (including the losing reduction of a resolved S/R conflict); the RULES list numbers rules as the action lines do; all name/rule/symbol indices in bounds; add_situation files an item under the symbol after its dot',
                 assumptions=['that the item sets and conflict flags in the table are the true LR(1) ones is C01 (transitions/closure not under contract)', 'text formatting is lowered to events (R10)', 'the DFA dump is not verified']),
     'C12': dict(units=['dfa', 'driver', 'stdex', 'state_analyzer'],
